@@ -21,7 +21,7 @@ RULE = (
     "steps, destructive or not; optionally one run of the sweep is made to fail. Oracle (i): every run's pixel / signal / "
     "image entry (selected by label) equals a standalone exposure the harness builds itself from the JSON spec with only "
     "that run's values substituted; (ii) a deep structural snapshot of the caller's detector, pipeline, readout and mode is "
-    "identical before and after run_mode (also when it raised). Calibration: see part 'calibration'. Non-trivial: >=2 runs "
+    "identical before and after run_mode (also when it raised). Part 'calibration': real calibration runs (sade / sga, 1..2 islands, 1..2 target files with per-target input arguments, 1..3 readouts) over the same state-keeping pipeline with a fitness function that records the simulated data of every candidate: a sample of the evaluated candidates (first, last, evenly spaced) and the champions' returned data must equal the standalone exposure with the values the probe received, and the caller's objects must be unchanged. Non-trivial: >=2 runs "
     "and a state-keeping or argument-mutating model in the pipeline (always present); distinct by canonical JSON."
 )
 ASSUMPTIONS = ["the standalone exposure is built from the JSON spec, never from the objects handed to pyxel",
@@ -156,8 +156,138 @@ def body(case, rec):
                       lambda a=a, w=w, b=b: f"run {n} {run}: {b} {a.ravel()[:4]} vs standalone {w.ravel()[:4]} (shapes {a.shape}/{w.shape})")
 
 
-PARTS = {"observation": body}
+# ------------------------------------------------------------------------------------------------ calibration
+@st.composite
+def cal_cases(draw):
+    return {"steps": draw(st.integers(1, 3)), "non_destructive": draw(st.booleans()), "bump": draw(st.sampled_from([1.0, 2.5])),
+            "pre_state": draw(st.booleans()), "algo": draw(st.sampled_from(["sade", "sga"])), "islands": draw(st.integers(1, 2)),
+            "evolutions": draw(st.integers(1, 2)), "pygmo_seed": draw(st.integers(0, 100000)), "offsets": draw(st.sampled_from([[0.0], [0.0, 7.0]])),
+            "log_p0": draw(st.booleans())}
+
+
+def _cal_pipeline(case, values=None):
+    P = "vprobes.models."
+    args = {"tag": "cal", "p0": 1.0, "p1": [1.0, 1.0], "offset": 0.0}
+    args.update(values or {})
+    return {"groups": {"charge_collection": [
+        {"name": "cal", "func": P + "cal_probe", "enabled": True, "arguments": args},
+        {"name": "mem", "func": P + "memory", "enabled": True, "arguments": {"bump": case["bump"], "tag": "mem"}},
+        {"name": "mut", "func": P + "arg_mutator", "enabled": True, "arguments": {"lst": [1, 2], "tag": "mut"}},
+        {"name": "pers", "func": "pyxel.models.charge_collection.simple_persistence", "enabled": True,
+         "arguments": {"trap_time_constants": [1.0, 10.0], "trap_densities": [0.1, 0.2]}},
+    ]}, "yaml_perm": 0}
+
+
+def _pre_state(cfg):
+    cfg.detector._memory["probe_n"] = 40
+    cfg.detector.pixel.array = np.full((2, 3), 9.0)
+    cfg.detector.signal.array = np.full((2, 3), 1.25)
+
+
+def _cal_standalone(case, values):
+    spec = {"detector": simple_spec("CMOS", row=2, col=3), "pipeline": _cal_pipeline(case, values), "mode": {"kind": "exposure"},
+            "readout": {"times": _times(case)}, "non_destructive": case["non_destructive"]}
+    cfg = pyx.build(spec)
+    if case["pre_state"]:
+        _pre_state(cfg)
+    res = pyx.run(cfg, with_inherited_coords=True)
+    return np.asarray(res["/bucket/pixel"].values, dtype=float)  # (time, y, x)
+
+
+def body_cal(case, rec):
+    from vprobes import models as P
+
+    P.reset()
+    steps, n_t = case["steps"], len(case["offsets"])
+    rec.cls(f"cal:steps:{steps}", f"cal:islands:{case['islands']}", f"cal:targets:{n_t}", "cal:pre_state" if case["pre_state"] else "cal:fresh_detector",
+            "cal:nd" if case["non_destructive"] else "cal:destructive")
+    rec.nt(True)
+    paths = []
+    for k in range(n_t):
+        np.save(rec.tmp / f"t{k}.npy", np.full((steps, 2, 3), 50.0 + k))
+        paths.append(str(rec.tmp / f"t{k}.npy"))
+    A = "pipeline.charge_collection.cal.arguments."
+    mode = {"kind": "calibration", "target_data_path": paths, "fitness_function": {"func": "vprobes.models.fitness_log"},
+            "algorithm": {"type": case["algo"], "generations": 2, "population_size": 8},
+            "parameters": [{"key": A + "p0", "values": "_", "logarithmic": case["log_p0"], "boundaries": [0.1, 10.0]},
+                           {"key": A + "p1", "values": ["_", "_"], "logarithmic": False, "boundaries": [[-2.0, 2.0], [0.0, 5.0]]}],
+            "result_type": "pixel", "result_input_arguments": [{"key": A + "offset", "values": list(case["offsets"])}],
+            "target_fit_range": [0, steps, 0, 2, 0, 3], "result_fit_range": [0, steps, 0, 2, 0, 3],
+            "pygmo_seed": case["pygmo_seed"], "num_islands": case["islands"], "num_evolutions": case["evolutions"]}
+    spec = {"detector": simple_spec("CMOS", row=2, col=3), "pipeline": _cal_pipeline(case), "mode": mode, "readout": {"times": _times(case)},
+            "non_destructive": case["non_destructive"]}
+    cfg = None
+    with rec.must_not_raise("valid_calibration_refused"):
+        cfg = pyx.build(spec)
+    if cfg is None:
+        return
+    if case["pre_state"]:
+        _pre_state(cfg)
+    before = snapshot.snap_all(cfg)
+    res = None
+    with rec.must_not_raise("valid_calibration_refused"):
+        res = pyx.run(cfg, with_inherited_coords=True)
+    d = snapshot.diff(before, snapshot.snap_all(cfg))
+    rec.check(not d, "callers_objects_modified", f"after a calibration: {d[:4]}")
+    if res is None:
+        return
+    # ---- every evaluated candidate: `steps` probe records followed by the fitness record of that processor
+    # (islands evolve in threads of their own: the records are grouped per thread)
+    log, evals, cur = list(P.CAL_LOG), [], {}
+    for e in log:
+        if e["kind"] == "cal":
+            cur.setdefault(e["thread"], []).append(e)
+        elif e["kind"] == "fit":
+            evals.append((cur.pop(e["thread"], []), e["sim"]))
+    if not rec.check(len(evals) >= 8 * n_t, "too_few_evaluations_logged", f"{len(evals)} evaluations in the log"):
+        return
+    cache = {}
+
+    def standalone(values):
+        key = repr(sorted(values.items()))
+        if key not in cache:
+            cache[key] = _cal_standalone(case, values)
+        return cache[key]
+
+    pick = sorted(set(list(range(min(6, len(evals)))) + list(range(max(0, len(evals) - 6), len(evals))) + list(range(0, len(evals), max(1, len(evals) // 6)))))
+    for i in pick:
+        recs, sim = evals[i]
+        if not rec.check(len(recs) == steps and [r["step"] for r in recs] == list(range(steps)), "candidate_not_run_as_one_exposure",
+                         f"evaluation #{i}: probe saw steps {[r['step'] for r in recs]} for {steps} readouts"):
+            continue
+        rec.sub({"evaluation": i}, True)
+        values = {"p0": recs[0]["values"]["p0"], "p1": recs[0]["values"]["p1"], "offset": recs[0]["offset"]}
+        want = None
+        with rec.must_not_raise("standalone_exposure_failed"):
+            want = standalone(values)
+        if want is None:
+            continue
+        ok = sim.shape == want.shape and bool(np.allclose(sim, want, rtol=1e-12, atol=1e-9))
+        rec.check(ok, "candidate_differs_from_standalone_exposure",
+                  lambda i=i, sim=sim, want=want, values=values: f"evaluation #{i} of {len(evals)} {values}: simulated {sim.ravel()[:4]} vs standalone {want.ravel()[:4]} (shapes {sim.shape}/{want.shape})")
+    # ---- the returned data of the champions
+    par = np.asarray(res["/champion/parameters"].values, dtype=float)  # (island, evolution, param)
+    got = None
+    with rec.must_not_raise("simulated_data_not_computable"):
+        got = np.asarray(res["/simulated/pixel"].compute().values, dtype=float)  # (island, processor, time, y, x)
+    if got is None:
+        return
+    for isl in range(par.shape[0]):
+        for k in range(n_t):
+            p = par[isl, -1]
+            want = None
+            with rec.must_not_raise("standalone_exposure_failed"):
+                want = standalone({"p0": float(p[0]), "p1": [float(p[1]), float(p[2])], "offset": float(case["offsets"][k])})
+            if want is None:
+                continue
+            g = got[isl, k]
+            ok = g.shape == want.shape and bool(np.allclose(g, want, rtol=1e-12, atol=1e-9))
+            rec.check(ok, "champion_result_differs_from_standalone_exposure", f"island {isl} target {k}: {g.ravel()[:4]} vs standalone {want.ravel()[:4]} (shapes {g.shape}/{want.shape})")
+
+
+PARTS = {"observation": body, "calibration": body_cal}
 
 
 def plan(tier):
-    return [Part(name="observation", kind="gen", strategy=cases, examples=60 if tier == "quick" else 400)]
+    return [Part(name="observation", kind="gen", strategy=cases, examples=60 if tier == "quick" else 400),
+            Part(name="calibration", kind="gen", strategy=cal_cases, examples=6 if tier == "quick" else 60)]
